@@ -88,9 +88,7 @@ static void ints_one(T a, T b, T c, int n, int ca, int cb)
     S("bitwise_andnot", xs::bitwise_andnot(a, b), wrapu<T>((U)(ua & (U)~ub)), xs::bitwise_andnot(va, vb));
     S("bitwise_lshift", xs::bitwise_lshift(a, n), wrapu<T>((U)(ua << n)), xs::bitwise_lshift(va, n));
     S("bitwise_rshift", xs::bitwise_rshift(a, n), (T)(std::is_signed<T>::value ? (T)(x >> n) : (T)(ua >> n)), xs::bitwise_rshift(va, n));
-    // rotations: a zero count makes the scalar form shift by the full width for 32/64-bit types (undefined in C++):
-    // the scalar form is only called for n > 0 there; signed types are the open finding F2
-    if (n > 0 || BITS < 32)
+    // rotations (every count including 0); signed types are the open finding F2
     {
         judge<T, T>(STAT("rotl"), signedcls, (T)xs::rotl(a, n), wrapu<T>((U)((U)(ua << n) | (n ? (U)(ua >> (BITS - n)) : (U)0))), true, (T)xs::rotl(va, n).get(0), wit, cell, eq_exact<T>);
         judge<T, T>(STAT("rotr"), signedcls, (T)xs::rotr(a, n), wrapu<T>((U)((U)(ua >> n) | (n ? (U)(ua << (BITS - n)) : (U)0))), true, (T)xs::rotr(va, n).get(0), wit, cell, eq_exact<T>);
